@@ -103,7 +103,12 @@ fn args(r: &mut Rng, depth: usize) -> String {
 // prose
 
 fn inline_elem(r: &mut Rng) -> String {
-    match r.below(18) {
+    match r.below(22) {
+        // a content block whose body is a block-level item, sitting inside a prose line
+        18 => format!("#box[- {} {}]", word(r), word(r)),
+        19 => format!("#{}[+ {}]", r.pick(&FUNCS), word(r)),
+        20 => format!("#box[/ {}: {}]", word(r), word(r)),
+        21 => format!("*#box[- {}]*", word(r)),
         0 => format!("#{}", ident(r)),
         1 => format!("#{}({})", r.pick(&FUNCS), args(r, 1)),
         2 => format!("#{}[{}]", r.pick(&FUNCS), word(r)),
@@ -255,7 +260,7 @@ fn math_atom(r: &mut Rng, depth: usize) -> String {
     if depth == 0 {
         return r.pick(&MATH_ATOMS).to_string();
     }
-    match r.below(24) {
+    match r.below(26) {
         0 => format!("{}_{}", r.pick(&MATH_ATOMS[..8]), math_atom(r, 0)),
         1 => format!("{}^{}", r.pick(&MATH_ATOMS[..8]), math_atom(r, 0)),
         2 => format!("{}_({})^({})", r.pick(&MATH_ATOMS[..8]), math_seq(r, 2, depth - 1), math_seq(r, 2, depth - 1)),
@@ -279,6 +284,26 @@ fn math_atom(r: &mut Rng, depth: usize) -> String {
         19 => format!("{}^#text(red)[{}]", r.pick(&MATH_ATOMS[..8]), r.below(9)),
         20 => format!("{}_#box(stroke: red)[{}] / #text(blue)[{}]", r.pick(&MATH_ATOMS[..8]), r.below(9), r.below(9)),
         21 => format!("√#strong[{}]", r.below(9)),
+        // rows of 2-D arguments whose last item ends in code embedded with `#`, followed by the row separator with and
+        // without a blank (`#x ;` — separator; `#x;` — terminator of the embedded expression)
+        22 => {
+            let tails = ["#x", "#calc.pow(2, 3)", "#v.a", "#(1 + 1)", "#[z]", "#{ 1 }", "#f(1)[y]", "#\"s\"", "#none", "#x.y.z", "#f(1).g(2)"];
+            let seps = [" ; ", "; ", " ;", ";", "  ;  "];
+            format!(
+                "mat({}, {}{}{}, {}{}{})",
+                math_atom(r, 0),
+                r.pick(&tails),
+                r.pick(&seps),
+                math_atom(r, 0),
+                r.pick(&tails),
+                r.pick(&seps),
+                math_atom(r, 0)
+            )
+        }
+        23 => {
+            let tails = ["#x", "#calc.pow(2, 3)", "#v.a", "#(1 + 1)", "#[z]"];
+            format!("vec({} ; {} , {})", r.pick(&tails), r.pick(&tails), r.pick(&tails))
+        }
         _ => r.pick(&MATH_ATOMS).to_string(),
     }
 }
@@ -520,7 +545,7 @@ pub const NEST_FAMILIES: usize = 26;
 /// Wrap `inner` with wrapper `w`. Code-level wrappers take/return a code expression.
 /// Families 0..NEST_FAMILIES take part in the mixed nestings of G-NEST; NEST_FAMILIES..NEST_FAMILIES_ALL are pure ladders only
 /// (C18, C05): calls nested through their trailing content blocks, spreads, statements, left-nested operands, …
-pub const NEST_FAMILIES_ALL: usize = 54;
+pub const NEST_FAMILIES_ALL: usize = 60;
 
 pub fn wrap(w: usize, inner: &str) -> String {
     if w >= NEST_FAMILIES && w < NEST_FAMILIES_ALL {
@@ -546,7 +571,7 @@ pub fn wrap(w: usize, inner: &str) -> String {
             39 => format!("{}.f", h),
             40 => format!("{}(1)", h),
             41 => format!("f({})[x]", inner),
-            42 => format!("(a, {}) => 1", if inner.chars().all(|c| c.is_alphanumeric()) { inner.to_string() } else { format!("b: {}", inner) }),
+            42 => format!("(a, {}) => 1", if inner.chars().all(|c| c.is_alphanumeric()) && inner.starts_with(|c: char| c.is_alphabetic()) { inner.to_string() } else { format!("b: {}", inner) }),
             43 => format!("[#set text(red)[#{}]]", h),
             // tables/grids whose layout analysis gives up late: the nested call comes first, the argument that makes the table
             // "not formatable as a grid" (cell call, spread, named argument after a positional one, line) comes after it
@@ -560,7 +585,14 @@ pub fn wrap(w: usize, inner: &str) -> String {
             50 => format!("f({}, ..r)[t]", inner),
             51 => format!("a.b({}, k: 1).c(..r)", inner),
             52 => format!("f({}, x => x, [t])", inner),
-            _ => format!("f(({}), (1, 2), k: (a: 1))", inner),
+            53 => format!("f(({}), (1, 2), k: (a: 1))", inner),
+            // comments on lines of their own inside the argument list (layout decisions that are revised after the fact)
+            54 => format!("f(\n  // c\n  x => {},\n)", inner),
+            55 => format!("f(\n  ({},),\n  /* c */\n)", inner),
+            56 => format!("f(\n  /* c */\n  {{ {} }},\n)", inner),
+            57 => format!("f(\n  // c\n  [#{}],\n)", h),
+            58 => format!("(\n  // c\n  {},\n  1,\n)", inner),
+            _ => format!("{{\n  // c\n  {}\n  /* d */\n}}", inner),
         };
     }
     match w % NEST_FAMILIES {
